@@ -4,7 +4,8 @@ set -e
 export GOFLAGS=-mod=mod GOPROXY=off GOSUMDB=off GOTOOLCHAIN=local
 cd /verif/mc
 mkdir -p /verif/bin /verif/evidence /verif/build
-go build ./...
+# shim/ is only compilable through the overlay (it lives at a virtual import path), so it is not built here
+go build ./lib/... ./corpus/... ./cmd/... ./gen/all/...
 for id in $(jq -r '.checks[].property_id' /verif/MANIFEST.json); do
   /verif/vcheck build "$id" || { echo "setup: build of $id failed"; exit 1; }
 done
